@@ -158,12 +158,14 @@ def selftest(ctx):
             return evs
 
     def lose_candidate(evs):
-        i = first(evs, lambda e: e["ev"] == "r_query" and len(e["got"]) > 0 and not e["labels"])
-        if i is None:
-            i = first(evs, lambda e: e["ev"] == "r_query" and len(e["got"]) > 0)
-        if i is not None:
-            evs[i]["got"] = []
-            return evs
+        # a candidate that does not match may legitimately be missing, and which ones match is TLC's business:
+        # drop the candidates of EVERY query (some query of a 20+ step history has a real match)
+        hit = False
+        for e in evs:
+            if e["ev"] == "r_query" and e["got"]:
+                e["got"] = []
+                hit = True
+        return evs if hit else None
 
     def lose_scanned_item(evs):
         i = first(evs, lambda e: e["ev"] == "kv_scan" and e["name"] in ("single-value", "multi-value", "label-name") and e["got"]
